@@ -2,7 +2,7 @@
 
 use crate::program::*;
 use crate::tape::Tape;
-use std::collections::BTreeSet;
+use std::collections::{BTreeMap, BTreeSet};
 
 #[derive(Clone, Debug)]
 pub struct GenOpts {
@@ -1317,6 +1317,106 @@ pub fn gen_program(t: &mut Tape, o: &GenOpts) -> Generated {
         };
         g.labels.insert("extra_root");
         roots.push(r);
+    }
+
+    // A second version of a whole group of definitions (two versions of one crate in the same
+    // metadata): every definition reachable from a chosen one is copied to the same path with the
+    // references inside the group redirected to the copies, and ONE copy gets one mutation. The other
+    // copies then differ from their originals only through the types they refer to.
+    if o.near_miss && o.two_versions && !roots.is_empty() && g.t.chance(40) {
+        let cands: Vec<usize> = (0..defs.len())
+            .filter(|i| !g.headers[*i].is_config && defs[*i].all_fields().iter().any(|f| f.ty.any(&mut |t| matches!(t, Ty::Def(..)))))
+            .collect();
+        if !cands.is_empty() {
+            let k = cands[g.t.choose(cands.len())];
+            // breadth-first closure over references, at most 5 definitions
+            let mut group = vec![k];
+            let mut at = 0;
+            while at < group.len() && group.len() < 5 {
+                let d = group[at];
+                at += 1;
+                let mut refs = vec![];
+                for f in defs[d].all_fields() {
+                    f.ty.any(&mut |t| {
+                        if let Ty::Def(x, _) = t {
+                            refs.push(*x);
+                        }
+                        false
+                    });
+                }
+                for x in refs {
+                    if !group.contains(&x) && defs[x].config_inner.is_none() && group.len() < 5 {
+                        group.push(x);
+                    }
+                }
+            }
+            let base = defs.len();
+            let map: BTreeMap<usize, usize> = group.iter().enumerate().map(|(j, d)| (*d, base + j)).collect();
+            fn remap(t: &Ty, map: &BTreeMap<usize, usize>) -> Ty {
+                let mut out = t.clone();
+                fn go(t: &mut Ty, map: &BTreeMap<usize, usize>) {
+                    match t {
+                        Ty::Def(d, args) => {
+                            if let Some(n) = map.get(d) {
+                                *d = *n;
+                            }
+                            args.iter_mut().for_each(|a| go(a, map));
+                        }
+                        Ty::Tuple(a) => a.iter_mut().for_each(|a| go(a, map)),
+                        Ty::Array(_, x) | Ty::Seq(_, x) | Ty::Opt(x) | Ty::Ptr(_, x) | Ty::Cow(x) | Ty::Set(x) | Ty::Heap(x)
+                        | Ty::Range(x) | Ty::RangeIncl(x) | Ty::Compact(x) | Ty::Phantom(x) => go(x, map),
+                        Ty::Res(a, b) | Ty::Map(a, b) | Ty::BitVecP(a, b) => {
+                            go(a, map);
+                            go(b, map);
+                        }
+                        Ty::Param(_) | Ty::Assoc(_) | Ty::Prim(_) | Ty::StrSlice | Ty::NonZero(_) | Ty::Duration | Ty::BitVec(..) | Ty::BitOrder(_) => {}
+                    }
+                }
+                go(&mut out, map);
+                out
+            }
+            let remap_fields = |f: &Fields, map: &BTreeMap<usize, usize>| -> Fields {
+                let conv = |l: &Vec<FieldDef>| -> Vec<FieldDef> {
+                    l.iter().map(|fd| FieldDef { ty: remap(&fd.ty, map), ..fd.clone() }).collect()
+                };
+                match f {
+                    Fields::Unit => Fields::Unit,
+                    Fields::Named(l) => Fields::Named(conv(l)),
+                    Fields::Unnamed(l) => Fields::Unnamed(conv(l)),
+                }
+            };
+            for d in &group {
+                let src = defs[*d].clone();
+                let body = match &src.body {
+                    Body::Struct(f) => Body::Struct(remap_fields(f, &map)),
+                    Body::Enum(vs) => Body::Enum(
+                        vs.iter().map(|v| VariantDef { fields: remap_fields(&v.fields, &map), ..v.clone() }).collect(),
+                    ),
+                };
+                defs.push(Def { body, ..src });
+            }
+            // one mutation in one copy (mostly the one the group was grown from)
+            let victim = if g.t.chance(160) { 0 } else { g.t.choose(group.len()) };
+            let decls: Vec<Vec<ParamDecl>> = defs.iter().map(|d| d.params.clone()).collect();
+            let mutated = mutate_body(g.t, &defs[base + victim].body, &decls);
+            defs[base + victim].body = mutated;
+            // the copies are rooted like their originals
+            let more: Vec<Ty> = roots
+                .iter()
+                .filter(|r| matches!(r, Ty::Def(d, _) if map.contains_key(d)))
+                .map(|r| remap(r, &map))
+                .collect();
+            for r in more {
+                if !roots.contains(&r) {
+                    roots.push(r);
+                }
+            }
+            g.labels.insert("two_versions");
+            g.labels.insert("near_miss_group_version");
+            if group.len() >= 2 {
+                g.labels.insert("near_miss_group_of_2_or_more");
+            }
+        }
     }
 
     let name_style = if o.qualified_names && g.t.chance(60) {
